@@ -186,6 +186,19 @@ def compare_traces(ra, rb, props, oracle, world_a, client=None, compare_draws=Tr
             bad = _compare_draw_lists(_all_draws(res_a), _all_draws(res_b))
             if bad is not None:
                 return Violation(props, oracle, "twin-probabilities", cell, f"sid {sid}: {bad}"), sid
+        if r["do"] in ("measure", "povm") and res_a.status == "ok":
+            # post-selection divides by the probability of the outcome: whatever one twin's contraction
+            # rounded away (up to 1e-6) is amplified by that factor in the conditional state, for good
+            pj = 1.0
+            for d in res_a.draws:
+                if d["p"] is not None and len(d["p"]) > 1:
+                    q = np.real(np.asarray(d["p"], dtype=np.complex128))
+                    if np.all(np.isfinite(q)) and q.sum() > 0 and 0 <= d["idx"] < len(q):
+                        pj *= max(float(q[d["idx"]] / q.sum()), 1e-12)
+            if pj < 1.0:
+                tol = tol / pj
+            if tol > 1e-3:
+                return None, None  # nothing meaningful left to compare
         d = snapshot_diff(post_a, post_b, client=client, tol=tol)
         if d is not None:
             return Violation(props, oracle, "twin-state", cell, f"sid {sid}: {d}"), sid
